@@ -161,8 +161,16 @@ def obligations(tier, H):
                     if params == "dict" and not thorough:
                         continue
                     add({"entry": entry, "side": side, "depth": depth, "desc": "wellformed", "name": name, "params": params}, "h_off")
+                    if entry == "server" and names[name] == "harness.jclasses.Canary" and (thorough or depth in ("param", "nested")):
+                        for kind in ("simple", "pooled"):
+                            add({"entry": entry, "side": side, "depth": depth, "desc": "wellformed", "name": name, "params": params,
+                                 "server": kind}, "h_off")
             for desc in DESCS:
                 add({"entry": entry, "side": side, "depth": depth, "desc": desc}, "h_off")
+                if entry == "server" and (thorough or depth in ("param", "nested")):
+                    # the configuration must reach every server class
+                    for kind in ("simple", "pooled"):
+                        add({"entry": entry, "side": side, "depth": depth, "desc": desc, "server": kind}, "h_off")
     # ---- enabled ----------------------------------------------------------------------
     for entry, side in (("jsonclass", "server"), ("load", "server"), ("loads", "client"), ("server", "server"), ("client", "client")):
         for depth in DEPTHS:
@@ -176,6 +184,9 @@ def obligations(tier, H):
                         add({"entry": entry, "side": side, "depth": depth, "desc": "wellformed", "name": name, "params": params, "classes": classes}, "h_on")
             for desc in DESCS:
                 add({"entry": entry, "side": side, "depth": depth, "desc": desc}, "h_on")
+                if entry == "server" and (thorough or depth in ("param", "nested")):
+                    for kind in ("simple", "pooled"):
+                        add({"entry": entry, "side": side, "depth": depth, "desc": desc, "server": kind}, "h_on")
     return obs
 
 
